@@ -40,4 +40,127 @@ func isIPv4Label
     invariant $pos == $i && 0 <= $i && $i <= len(label)
     invariant forall k in 0..$pos: isDigit(label[k])
     invariant val == decPrefix(label, $pos)
+
+// ---------------------------------------------------------------------------
+// addrconv.go, sort.go (property C12)
+
+// sameV4(addr, ip): addr is the IPv4 address whose bytes are the 4-byte form
+// of ip; sameV6 likewise for the 16-byte form.
+spec fn sameV4(a netip.Addr, ip []byte) bool =
+  addrIs4(a) && !addrZoned(a) && (forall i in 0..4: addrByte(a, 12 + i) == ip4Byte(ip, i))
+spec fn sameV6(a netip.Addr, ip []byte) bool =
+  addrValid(a) && !addrIs4(a) && !addrZoned(a) && (forall i in 0..16: addrByte(a, i) == ip16Byte(ip, i))
+spec fn isIP4(ip []byte) bool = len(ip) == 4 || isV4Mapped(ip)
+
+func IPToAddr
+  requires fam == AddrFamilyIPv4 || fam == AddrFamilyIPv6
+  ensures nil_rejected: ip == nil ==> err != nil
+  ensures v4_accepts: fam == AddrFamilyIPv4 ==> (err == nil <==> isIP4(ip))
+  ensures v4_same_addr: fam == AddrFamilyIPv4 && err == nil ==> sameV4(addr, ip)
+  ensures v6_accepts: fam == AddrFamilyIPv6 ==> (err == nil <==> (len(ip) == 4 || len(ip) == 16))
+  ensures v6_same_addr: fam == AddrFamilyIPv6 && err == nil ==> sameV6(addr, ip)
+  ensures rejected_is_zero: err != nil ==> addr == zero("netip.Addr")
+
+func IPToAddrNoMapped
+  ensures accepts: err == nil <==> (len(ip) == 4 || len(ip) == 16)
+  ensures unmapped: err == nil && isIP4(ip) ==> sameV4(addr, ip)
+  ensures v6_same_addr: err == nil && !isIP4(ip) ==> sameV6(addr, ip)
+
+func IPNetToPrefix
+  requires fam == AddrFamilyIPv4 || fam == AddrFamilyIPv6
+  ensures nil_rejected: subnet == nil ==> err != nil
+  ensures addr_v4: err == nil && fam == AddrFamilyIPv4 ==> sameV4(prefAddr(p), subnet.IP)
+  ensures addr_v6: err == nil && fam == AddrFamilyIPv6 ==> sameV6(prefAddr(p), subnet.IP)
+  ensures valid: err == nil ==> prefValid(p)
+  ensures mask_is_prefix: err == nil ==> len(subnet.Mask) > 0 && maskIsPrefix(subnet.Mask, prefBits(p))
+  ensures input_unchanged: subnet != nil ==> subnet.IP == old(subnet.IP) && subnet.Mask == old(subnet.Mask)
+
+func IPNetToPrefixNoMapped
+  modifies subnet.IP
+  ensures nil_rejected: subnet == nil ==> err != nil
+  ensures addr_v4: err == nil && isIP4(old(subnet.IP)) ==> sameV4(prefAddr(p), old(subnet.IP))
+  ensures addr_v6: err == nil && !isIP4(old(subnet.IP)) ==> sameV6(prefAddr(p), old(subnet.IP))
+  ensures valid: err == nil ==> prefValid(p)
+  ensures mask_is_prefix: err == nil ==> len(subnet.Mask) > 0 && maskIsPrefix(subnet.Mask, prefBits(p))
+
+func NetAddrToAddrPort
+  requires addr != nil
+  ensures no_addrport: calls(".AddrPort") == 0 ==> addrPort == zero("netip.AddrPort")
+  ensures same_port: calls(".AddrPort") == 1 ==> apPort(addrPort) == apPort(callres(".AddrPort", 0))
+  ensures same_addr: calls(".AddrPort") == 1 && !addrIs4In6(apAddr(callres(".AddrPort", 0))) ==>
+    apAddr(addrPort) == apAddr(callres(".AddrPort", 0))
+  ensures unmapped: calls(".AddrPort") == 1 && addrIs4In6(apAddr(callres(".AddrPort", 0))) ==>
+    addrIs4(apAddr(addrPort)) &&
+    (forall i in 0..4: addrByte(apAddr(addrPort), 12 + i) == addrByte(apAddr(callres(".AddrPort", 0)), 12 + i))
+
+// Membership.  *net.IPNet contains x iff x[i]&m[i] == ip[i]&m[i] for every
+// byte; a prefix of `ones` bits contains x iff the top `ones` bits agree.
+// For a mask that is `ones` one bits followed by zeros the two coincide
+// (lemmas below, n = 4 and n = 16).  andByte is Go's & restricted to the nine
+// canonical mask bytes, written with literal masks so that it is encoded
+// exactly like the & of the real code.
+spec fn andByte(x int, m int) int =
+  m == 255 ? x : m == 254 ? x & 254 : m == 252 ? x & 252 : m == 248 ? x & 248 :
+  m == 240 ? x & 240 : m == 224 ? x & 224 : m == 192 ? x & 192 : m == 128 ? x & 128 : 0
+spec fn topBits(x int, r int) int =
+  r <= 0 ? 0 : r == 1 ? x / 128 : r == 2 ? x / 64 : r == 3 ? x / 32 : r == 4 ? x / 16 :
+  r == 5 ? x / 8 : r == 6 ? x / 4 : r == 7 ? x / 2 : x
+
+lemma ipnetMembership4(x [4]byte, ip [4]byte, m [4]byte, ones int)
+  requires 0 <= ones && ones <= 32
+  requires forall i in 0..4: 0 <= x[i] && x[i] <= 255 && 0 <= ip[i] && ip[i] <= 255 && m[i] == maskByte(ones - 8 * i)
+  ensures same_set: (forall i in 0..4: andByte(x[i], m[i]) == andByte(ip[i], m[i])) <==>
+    (forall i in 0..4: topBits(x[i], ones - 8 * i) == topBits(ip[i], ones - 8 * i))
+
+// The 16-byte case is the same pointwise conjunction; its per-byte step for
+// every mask-byte position r (clamped to 0..8 by maskByte/topBits):
+lemma maskByteMembership(x byte, y byte, r int)
+  ensures same_bits: andByte(x, maskByte(r)) == andByte(y, maskByte(r)) <==> topBits(x, r) == topBits(y, r)
+
+// Comparators.  rank: preferred family 0, other family 1, invalid 2.
+spec fn rank4(a netip.Addr) int = !addrValid(a) ? 2 : addrIs4(a) ? 0 : 1
+spec fn rank6(a netip.Addr) int = !addrValid(a) ? 2 : addrIs4(a) ? 1 : 0
+
+func PreferIPv4
+  ensures order: res < 0 <==> less4(a, b)
+
+func PreferIPv6
+  ensures order: res < 0 <==> less6(a, b)
+
+// With slices.SortFunc's contract (sorts by cmp(a, b) < 0, which must be a
+// strict weak ordering) the statement about sorting follows from: less is a
+// strict weak order whose classes are ordered preferred family, other
+// family, invalid.  Addr.Compare is assumed to be a total order on the three
+// addresses involved (the requires clauses).
+spec fn less4(a netip.Addr, b netip.Addr) bool =
+  rank4(a) < rank4(b) || (rank4(a) == rank4(b) && rank4(a) < 2 && addrCompare(a, b) < 0)
+spec fn less6(a netip.Addr, b netip.Addr) bool =
+  rank6(a) < rank6(b) || (rank6(a) == rank6(b) && rank6(a) < 2 && addrCompare(a, b) < 0)
+spec fn cmpTotal(a netip.Addr, b netip.Addr, c netip.Addr) bool =
+  addrCompare(a, a) == 0 && addrCompare(b, b) == 0 && addrCompare(c, c) == 0 &&
+  addrCompare(a, b) == 0 - addrCompare(b, a) && addrCompare(a, c) == 0 - addrCompare(c, a) && addrCompare(b, c) == 0 - addrCompare(c, b) &&
+  (addrCompare(a, b) <= 0 && addrCompare(b, c) <= 0 ==> addrCompare(a, c) <= 0) &&
+  (addrCompare(a, b) >= 0 && addrCompare(b, c) >= 0 ==> addrCompare(a, c) >= 0) &&
+  (addrCompare(a, b) < 0 && addrCompare(b, c) <= 0 ==> addrCompare(a, c) < 0) &&
+  (addrCompare(a, b) <= 0 && addrCompare(b, c) < 0 ==> addrCompare(a, c) < 0) &&
+  (addrCompare(a, c) <= 0 && addrCompare(c, b) <= 0 ==> addrCompare(a, b) <= 0) &&
+  (addrCompare(b, a) <= 0 && addrCompare(a, c) <= 0 ==> addrCompare(b, c) <= 0)
+
+lemma prefer4StrictWeakOrder(a netip.Addr, b netip.Addr, c netip.Addr)
+  requires cmpTotal(a, b, c)
+  ensures irreflexive: !less4(a, a)
+  ensures asymmetric: less4(a, b) ==> !less4(b, a)
+  ensures transitive: less4(a, b) && less4(b, c) ==> less4(a, c)
+  ensures incomparability_transitive: !less4(a, b) && !less4(b, a) && !less4(b, c) && !less4(c, b) ==> !less4(a, c) && !less4(c, a)
+  ensures classes_ordered: rank4(a) < rank4(b) ==> less4(a, b)
+  ensures ascending_within_family: rank4(a) == rank4(b) && rank4(a) < 2 ==> (less4(a, b) <==> addrCompare(a, b) < 0)
+
+lemma prefer6StrictWeakOrder(a netip.Addr, b netip.Addr, c netip.Addr)
+  requires cmpTotal(a, b, c)
+  ensures irreflexive: !less6(a, a)
+  ensures asymmetric: less6(a, b) ==> !less6(b, a)
+  ensures transitive: less6(a, b) && less6(b, c) ==> less6(a, c)
+  ensures incomparability_transitive: !less6(a, b) && !less6(b, a) && !less6(b, c) && !less6(c, b) ==> !less6(a, c) && !less6(c, a)
+  ensures classes_ordered: rank6(a) < rank6(b) ==> less6(a, b)
+  ensures ascending_within_family: rank6(a) == rank6(b) && rank6(a) < 2 ==> (less6(a, b) <==> addrCompare(a, b) < 0)
 @*/
